@@ -152,6 +152,7 @@ def poly_case(rnd, alias=False):
         qs.append([order, i])
     if alias:
         qs.append([rnd.choice([100, 130]), rnd.randrange(0, 5)])      # i + order >= m: the step follows i only
+        qs.append([rnd.choice([0, 1]), rnd.choice([98, 99, 120, 197, 198, 250])])     # 100, 200, 300 points
     vs = [[rnd.choice([0, 1, 2, 3]), rnd.choice([0.0, 1.0, 0.5, -0.25])] for _ in range(2)]
     return {'kind': 'poly', 'coeffs': cs, 'queries': qs, 'values': vs, 'scale': rnd.choice([None, None, ['*', 0.5], ['/', 4.0], ['*', 3.0]])}
 
@@ -275,7 +276,7 @@ class H(Harness):
 
     def gen_cases(self, tier, rnd, n):
         out = []
-        n_plc = 6 if tier == 'quick' else 150
+        n_plc = 6 if tier == 'quick' else 110
         n_er = n // 4
         n_poly = n // 5
         n_geo = n // 16
